@@ -151,6 +151,17 @@ def run_property(spec, tier, seed):
         lines.append(f"VIOLATION property={pid} replay={path}")
 
     inconclusive_reasons = []
+    extra_results = []
+    for fn in spec.get("extra_engines", []):
+        r = fn(tier, seed)
+        extra_results.append(r)
+        for v in r.get("violations", []):
+            path = os.path.join(EVID, "replays", f"{pid}-{len(vio_paths)}.json")
+            with open(path, "w") as fh:
+                json.dump(v, fh, indent=1)
+            vio_paths.append(path)
+            lines.append(f"VIOLATION property={pid} replay={path}")
+        inconclusive_reasons += r.get("inconclusive", [])
     if fails:
         inconclusive_reasons.append(f"{len(fails)} harness processes failed: {fails[0][2][-300:]!r}")
     if bad_sk:
@@ -212,6 +223,7 @@ def run_property(spec, tier, seed):
             "explore_seconds": round(explore_s, 1),
             "build_seconds": round(bt, 1),
             "explanation": "; ".join(inconclusive_reasons) if inconclusive_reasons else "all obligations decided within the stated bounds",
+            "other_engines": [r.get("evidence", {}) for r in extra_results],
         },
         "assumptions": spec.get("assumptions", []),
         "wall_s": round(wall, 1),
